@@ -32,6 +32,14 @@ LOCAL = {
                           (1.7, 0.25, (-0.4, 0.9, 4.5))]),
              ("Multisphere", (), {"eps": 1e-12, "qeps1": 1e-12,
                                   "qeps2": 1e-14})),
+    # the radial component of the near field (non-default option), close to
+    # the detector plane
+    "ms3t-radial": (("spheres", [(1.59, 0.4, (0.3, 0.1, 3.0)),
+                                 (1.45, 0.3, (1.2, 0.7, 3.6)),
+                                 (1.7, 0.25, (-0.4, 0.9, 2.5))]),
+                    ("Multisphere", (), {"eps": 1e-12, "qeps1": 1e-12,
+                                         "qeps2": 1e-14,
+                                         "compute_escat_radial": True})),
     # pairs sharing an x or a y coordinate exactly (axis-aligned pairs are
     # special-cased in the cluster solver's translation matrices)
     "ms3a": (("spheres", [(1.59, 0.4, (0.3, 0.1, 5.0)),
@@ -63,11 +71,12 @@ LOCAL = {
                   ("Multisphere", (), {})),
 }
 H.ST.update(LOCAL)
-STS = {"quick": ["mie", "mie2", "ms3t", "ms3a", "auto-dimer", "tm-spheroid",
+STS = {"quick": ["mie", "mie2", "ms3t", "ms3t-radial", "ms3a", "auto-dimer", "tm-spheroid",
                  "tm-sphere", "lens-tm", "ms3-chain", "mielens",
                  "mielens-below", "lens-mie", "lens-mie-uneq", "abmielens",
                  "layered"],
-       "thorough": ["mie", "mie-far", "layered", "mie2", "ms3t", "ms3a",
+       "thorough": ["mie", "mie-far", "layered", "mie2", "ms3t",
+                    "ms3t-radial", "ms3a",
                     "auto-dimer",
                     "tm-spheroid", "tm-cylinder", "tm-sphere", "mielens",
                     "mielens-below", "lens-mie", "lens-mie-uneq",
